@@ -3,6 +3,7 @@ package rules
 import (
 	"fmt"
 	"go/ast"
+	"go/token"
 	"sort"
 	"strings"
 
@@ -537,14 +538,36 @@ func C16(c *Ctx) {
 			}
 			return false, 0
 		})
-		notApproved := core.Reach([]core.Point{core.EntryOf(am)}, nil, core.CutOf(apprEdges))
+		notApprovedAm := core.Reach([]core.Point{core.EntryOf(am)}, nil, core.CutOf(apprEdges))
+		// the approved branch may have been split out: a helper called only on the approved branch that receives the
+		// event type is then the home of the per-event cascade
+		home, homeEvent := am, eventP
+		inNotApproved := func(in ssa.Instruction) bool { return notApprovedAm.Has(in) }
+		for _, call := range core.Calls(am) {
+			h := core.StaticCallee(call)
+			if h == nil || h == am || len(h.Blocks) == 0 || core.PkgOf(h) != core.PkgOf(am) || notApprovedAm.Has(call) || eventP == nil {
+				continue
+			}
+			hasEdge := false
+			for _, hc := range core.Calls(h) {
+				if cl, ok := hc.(*ssa.Call); ok && edgeOf[cl] != nil {
+					hasEdge = true
+				}
+			}
+			for ai, a := range call.Common().Args {
+				if hasEdge && ai < len(h.Params) && core.Strip(a) == ssa.Value(eventP) {
+					home, homeEvent = h, h.Params[ai]
+					inNotApproved = func(in ssa.Instruction) bool { return false }
+				}
+			}
+		}
 		want := []struct{ event, method string }{{"freeze", "PauseChainService"}, {"activate", "UnPauseChainService"}, {"logout", "ClearChainService"}, {"logout", "ClearRule"}}
 		for _, w := range want {
 			key := fmt.Sprintf("AppchainManager.Manage: approved %s -> %s", w.event, w.method)
 			var target *ssa.Call
-			for _, call := range core.Calls(am) {
+			for _, call := range core.Calls(home) {
 				if cl, ok := call.(*ssa.Call); ok {
-					if ed := edgeOf[cl]; ed != nil && ed.Method == w.method && !notApproved.Has(cl) {
+					if ed := edgeOf[cl]; ed != nil && ed.Method == w.method && !inNotApproved(cl) {
 						target = cl
 					}
 				}
@@ -556,24 +579,24 @@ func C16(c *Ctx) {
 			// start: the true edge of eventTyp == w.event on the approved branch
 			found := false
 			ok := true
-			for _, b := range am.Blocks {
+			for _, b := range home.Blocks {
 				ifi := core.IfOf(b)
-				if ifi == nil || notApproved.Has(ifi) {
+				if ifi == nil || inNotApproved(ifi) {
 					continue
 				}
 				f := core.CondFact(ifi.Cond)
-				if f.Kind != core.FEqConst || f.Const != w.event || eventP == nil || core.Strip(f.Subject) != ssa.Value(eventP) {
+				if f.Kind != core.FEqConst || f.Const != w.event || homeEvent == nil || core.Strip(f.Subject) != ssa.Value(homeEvent) {
 					continue
 				}
 				found = true
 				rs := core.Reach([]core.Point{{B: b.Succs[holdsEdge(f)], Idx: 0}}, func(in ssa.Instruction) bool { return in == ssa.Instruction(target) }, nil)
-				for _, ret := range core.Returns(am) {
-					if rs.Has(ret) && core.MayBeSuccess(am, ret, 0, core.ConvRespOk) {
+				for _, ret := range core.Returns(home) {
+					if rs.Has(ret) && core.MayBeSuccess(home, ret, 0, core.ConvRespOk) {
 						ok = false
 					}
 				}
 			}
-			tested := core.SuccessEdges(am, []core.GuardSite{{Call: target, Conv: core.ConvRespOk, Idx: -1}})
+			tested := core.SuccessEdges(home, []core.GuardSite{{Call: target, Conv: core.ConvRespOk, Idx: -1}})
 			r.Check(found && ok && len(tested) > 0, "R16.4", key, c.P.Pos(target.Pos()), "every successful path of the approved "+w.event+" branch passes the cross-invoke, whose result is tested",
 				"an approved "+w.event+" of an appchain can complete without "+w.method+" (or without testing its result): the chain's services/rules stay usable")
 		}
@@ -679,10 +702,36 @@ func C16(c *Ctx) {
 					approvedOnly[g] = true
 				}
 			}
+			// transitively: a function all of whose call sites lie on the approved branch of Manage or in a function for
+			// which that holds (the approved branch split into manageApproved -> manageUpdateApprove ...)
+			sitesOf := map[*ssa.Function][]ssa.CallInstruction{}
 			for _, fn := range m.funcs {
 				for _, call := range core.Calls(fn) {
-					if g := core.StaticCallee(call); g != nil && approvedOnly[g] && (fn != manage || notApproved.Has(call)) {
-						delete(approvedOnly, g) // also called from elsewhere
+					if g := core.StaticCallee(call); g != nil && core.PkgOf(g) == core.PkgOf(manage) {
+						sitesOf[g] = append(sitesOf[g], call)
+					}
+				}
+			}
+			approvedOnly = map[*ssa.Function]bool{}
+			for changed := true; changed; {
+				changed = false
+				for g, css := range sitesOf {
+					if approvedOnly[g] || g == manage || len(css) == 0 {
+						continue
+					}
+					all := true
+					for _, cs := range css {
+						caller := cs.Parent()
+						for caller.Parent() != nil {
+							caller = caller.Parent()
+						}
+						if caller == manage && !notApproved.Has(cs) || approvedOnly[caller] {
+							continue
+						}
+						all = false
+					}
+					if all {
+						approvedOnly[g], changed = true, true
 					}
 				}
 			}
@@ -813,6 +862,7 @@ func C16(c *Ctx) {
 			r.Anchor("R16.5", "ServiceManager.postServiceEvent")
 		} else {
 			n := 0
+			wrappers := map[*ssa.Function]bool{}
 			isChange := func(in ssa.Instruction) bool {
 				call, ok := in.(ssa.CallInstruction)
 				if !ok {
@@ -822,11 +872,9 @@ func C16(c *Ctx) {
 				if strings.HasSuffix(nm, "service-mgr.ServiceManager).ChangeStatus") || strings.HasSuffix(nm, "service-mgr.ServiceManager).Register") || strings.HasSuffix(nm, "service-mgr.ServiceManager).Update") {
 					return true
 				}
-				// helpers of the contract that change status
-				for _, h := range []string{".pauseService", ".unPauseService", ".clearService"} {
-					if strings.HasSuffix(nm, "contracts.ServiceManager)"+h) {
-						return true
-					}
+				// helpers of the contract that change a status and leave the event to their callers (computed below)
+				if g := core.StaticCallee(call); g != nil && wrappers[g] {
+					return true
 				}
 				return false
 			}
@@ -880,6 +928,28 @@ func C16(c *Ctx) {
 				}
 				return ok2
 			}
+			// status-change wrappers: unexported methods of the contract that change a status (directly or through
+			// another wrapper) and do not post the event themselves on every successful path - the obligation then
+			// lies with each of their callers (pauseService, unPauseService, clearService, and whatever a refactoring
+			// extracts from them)
+			entrySet := map[*ssa.Function]bool{}
+			for _, e := range sm.Entries {
+				if e.Fn != nil {
+					entrySet[e.Fn] = true
+				}
+			}
+			for changed := true; changed; {
+				changed = false
+				for _, fn := range m.funcs {
+					if wrappers[fn] || entrySet[fn] || fn.Parent() != nil || fn.Signature.Recv() == nil || fn == post || token.IsExported(fn.Name()) ||
+						!strings.HasSuffix(core.RecvTypeName(fn.Signature.Recv().Type()), "contracts.ServiceManager") {
+						continue
+					}
+					if len(sites(fn, isChange)) > 0 && !followsAll(fn, isChange, isPost, true) {
+						wrappers[fn], changed = true, true
+					}
+				}
+			}
 			for _, e := range sm.Entries {
 				if !e.Own || e.Fn == nil || len(sites(e.Fn, isChange)) == 0 {
 					continue
@@ -900,8 +970,7 @@ func C16(c *Ctx) {
 				if entryFns[fn] || fn.Parent() != nil || fn.Signature.Recv() == nil || !strings.HasSuffix(core.RecvTypeName(fn.Signature.Recv().Type()), "contracts.ServiceManager") {
 					continue
 				}
-				switch fn.Name() {
-				case "pauseService", "unPauseService", "clearService", "postServiceEvent":
+				if wrappers[fn] || fn == post {
 					continue // status-change wrappers: judged at their call sites
 				}
 				if len(sites(fn, isChange)) == 0 {
